@@ -139,3 +139,17 @@ package dtls
 //@   atcall verifyCert before: assert @C16: len(rawCerts) == 1 && arg0 == rawCerts[0] && arg1 == serverCert.Certificate[0]
 //@   atcall verifyCert after: snap vErr := res
 //@   ensures @C16: result == nil ==> defined(vErr) && vErr == nil
+
+// ---------------- C16: heartbeat watchdog input ----------------
+// "a peer that stops sending heartbeats causes the connection to close within the heartbeat timeout": the watchdog
+// closes the connection when the liveness counter did not move during an interval, so the counter must move for
+// heartbeat messages ONLY - in the receive loop it is bumped exactly when the message just read equals the
+// heartbeat, and such a message is not passed on as data (the loop continues).
+//@ import bytes "bytes"
+//@ func (c *hbConn) recvLoop()
+//@   requires c != nil && c.stream != nil
+//@   atcall bytes.Equal after: snap isHB := res
+//@   atcall AddUint32 before: assert @C16: defined(isHB) && isHB && arg0 == &c.waiting
+//@   ensures @C16: true
+//@ loop 1:
+//@   invariant c != nil && c.stream != nil
